@@ -18,6 +18,7 @@ package main
 import (
 	"go/token"
 	"go/types"
+	"strings"
 
 	"golang.org/x/tools/go/ssa"
 )
@@ -401,4 +402,226 @@ func checkDecimalLiterals(w *World, r *Report) {
 		})
 	}
 	r.floor("string→integer conversions that become literal values", n, 1)
+}
+
+// checkExpressionShortcuts — R08.12: every expression goes through the expression tokenizer.
+// Where a function hands a piece of text x to TokenizeExpression on one path and, on a path that
+// excludes that call, emits a token whose value is x or was computed from x, the shortcut must be
+// controlled by an identifier validator applied to x (a whole-string test): "it parses as a
+// literal", "it starts and ends with a quote" also hold for `'a' ~ b ~ 'c'`, which is an
+// expression.
+func checkExpressionShortcuts(w *World, r *Report) {
+	tokExpr := w.method("ZeroAllocTokenizer", "TokenizeExpression")
+	addTok := w.method("ZeroAllocTokenizer", "AddToken")
+	isValidator := func(c *ssa.Call, x ssa.Value) bool {
+		g := c.Call.StaticCallee()
+		if g == nil || !isTwigFn(g) || len(c.Call.Args) == 0 {
+			return false
+		}
+		sig := g.Signature
+		if sig.Results().Len() != 1 || !types.Identical(sig.Results().At(0).Type().Underlying(), types.Typ[types.Bool]) {
+			return false
+		}
+		if !sameValue(unspill(c.Call.Args[len(c.Call.Args)-1]), unspill(x)) {
+			return false
+		}
+		// walks the characters with a byte/rune class predicate or comparisons: a whole-string test
+		// returning false on the first offending character
+		return strings.Contains(strings.ToLower(g.Name()), "valid") || strings.Contains(strings.ToLower(g.Name()), "identifier") || strings.Contains(strings.ToLower(g.Name()), "name")
+	}
+	n := 0
+	for _, fn := range w.pkgFuncs() {
+		var exprCalls []*ssa.Call
+		instrsOf(fn, func(in ssa.Instruction) {
+			if c, ok := in.(*ssa.Call); ok && calleeFunc(c) == tokExpr && c.Parent() != w.ssaFunc(tokExpr) {
+				exprCalls = append(exprCalls, c)
+			}
+		})
+		if len(exprCalls) == 0 {
+			continue
+		}
+		for _, T := range exprCalls {
+			x := callArgs(T)[0]
+			// values computed from x
+			derived := map[ssa.Value]bool{unspill(x): true, x: true}
+			for changed := true; changed; {
+				changed = false
+				instrsOf(fn, func(in ssa.Instruction) {
+					v, ok := in.(ssa.Value)
+					if !ok || derived[v] {
+						return
+					}
+					switch y := in.(type) {
+					case *ssa.Call:
+						if calleeFunc(y) == tokExpr || calleeFunc(y) == addTok {
+							return
+						}
+						for _, a := range y.Call.Args {
+							if derived[a] && isString(a.Type()) {
+								derived[v], changed = true, true
+							}
+						}
+					case *ssa.Extract:
+						if derived[y.Tuple] {
+							derived[v], changed = true, true
+						}
+					case *ssa.TypeAssert:
+						if derived[y.X] {
+							derived[v], changed = true, true
+						}
+					case *ssa.Phi:
+						for _, e := range y.Edges {
+							if derived[e] {
+								derived[v], changed = true, true
+							}
+						}
+					case *ssa.UnOp:
+						if u := unspill(y); u != ssa.Value(y) && derived[u] {
+							derived[v], changed = true, true
+						}
+					}
+				})
+			}
+			instrsOf(fn, func(in ssa.Instruction) {
+				A, ok := in.(*ssa.Call)
+				if !ok || calleeFunc(A) != addTok {
+					return
+				}
+				args := callArgs(A)
+				if len(args) < 2 || !derived[args[1]] {
+					return
+				}
+				// exclusive with T
+				reach := func(a, b ssa.Instruction) bool {
+					if a.Block() == b.Block() {
+						return instrIndex(a) < instrIndex(b)
+					}
+					for _, s := range a.Block().Succs {
+						if blockReaches(s, b.Block()) {
+							return true
+						}
+					}
+					return false
+				}
+				_ = reach
+				// the two are alternatives for the SAME text only if what separates them looks at
+				// that text: the branch at their nearest common dominator tests a value computed
+				// from x (a tag-name switch separates different positions, not two readings of one)
+				doms := map[*ssa.BasicBlock]bool{}
+				for d := A.Block(); d != nil; d = d.Idom() {
+					doms[d] = true
+				}
+				var lca *ssa.BasicBlock
+				for d := T.Block(); d != nil; d = d.Idom() {
+					if doms[d] {
+						lca = d
+						break
+					}
+				}
+				if lca == nil {
+					return
+				}
+				// exclusive: neither reaches the other without coming back to that branch
+				if lca == A.Block() || lca == T.Block() {
+					return
+				}
+				excl := func(a, b ssa.Instruction) bool {
+					for _, sc := range a.Block().Succs {
+						if sc == b.Block() || blockReachesAvoiding(sc, b.Block(), lca) {
+							return false
+						}
+					}
+					return a.Block() != b.Block()
+				}
+				if !excl(A, T) || !excl(T, A) {
+					return
+				}
+				cond, _, isIf := ifCond(lca)
+				if !isIf {
+					return
+				}
+				var facts []condFact
+				expandCond(cond, true, &facts, 0)
+				looksAtX := false
+				var fromX func(v ssa.Value, d int) bool
+				fromX = func(v ssa.Value, d int) bool {
+					if v == nil || d > 4 {
+						return false
+					}
+					if derived[v] {
+						return true
+					}
+					switch y := v.(type) {
+					case *ssa.BinOp:
+						return fromX(y.X, d+1) || fromX(y.Y, d+1)
+					case *ssa.UnOp:
+						return fromX(y.X, d+1)
+					case *ssa.Call:
+						for _, a := range y.Call.Args {
+							if fromX(a, d+1) {
+								return true
+							}
+						}
+					case *ssa.Extract:
+						return fromX(y.Tuple, d+1)
+					case *ssa.TypeAssert:
+						return fromX(y.X, d+1)
+					}
+					return false
+				}
+				for _, cf := range facts {
+					if fromX(cf.v, 0) {
+						looksAtX = true
+					}
+				}
+				if !looksAtX {
+					return
+				}
+				// the target of an assignment (`name =`) is not an expression position
+				lvalue := false
+				after := false
+				for _, bi := range A.Block().Instrs {
+					if bi == ssa.Instruction(A) {
+						after = true
+						continue
+					}
+					if !after {
+						continue
+					}
+					if c2, ok := bi.(*ssa.Call); ok && calleeFunc(c2) == addTok {
+						if sv, ok := constString(callArgs(c2)[1]); ok && sv == "=" {
+							lvalue = true
+						}
+						break
+					}
+				}
+				if lvalue {
+					return
+				}
+				n++
+				construct := "token emitted instead of tokenising the expression"
+				guarded := false
+				for _, c := range controllingConds(A) {
+					var facts []condFact
+					expandCond(c, true, &facts, 0)
+					for _, cf := range facts {
+						if call, ok := cf.v.(*ssa.Call); ok && cf.truth && isValidator(call, x) {
+							guarded = true
+						}
+					}
+				}
+				if guarded {
+					r.ok("R08.12", ssaName(fn), construct, w.posOf(A.Pos()), "taken only where an identifier validator accepted the whole text", true)
+				} else {
+					r.bad("R08.12", ssaName(fn), construct, w.posOf(A.Pos()), "a piece of text that is otherwise handed to the expression tokenizer becomes a single token here without an identifier test of the whole text: an expression that merely looks like a literal at both ends — 'a' ~ b ~ 'c' — is read as one string, so the same expression means something else in this position")
+				}
+			})
+		}
+	}
+	r.Counts["single-token shortcuts beside TokenizeExpression"] = n
+}
+
+func isString(t types.Type) bool {
+	b, ok := t.Underlying().(*types.Basic)
+	return ok && b.Info()&types.IsString != 0
 }
